@@ -95,7 +95,8 @@ CLAIMED = {
             "the grouping skeleton of collapse_hits: a value enters the order once (contains_key miss) and its group is removed when "
             "emitted; the group is sorted by (a.key, b.key), the representative is the first of that sorted list and the inner hits "
             "are the rest of the same iterator; a differing inner sort goes through resort_hits with the inner plan and an (a, b) "
-            "comparison; `from` is applied before `size`. Which documents share a value and how they rank is NOT decided", "5/C18"),
+            "comparison, applied ONCE to the whole list (no per-sub-list sort, nothing combined afterwards); `from` is applied before "
+            "`size`. Which documents share a value and how they rank is NOT decided", "5/C18"),
     "C19": ("container-aware value flow of hit indices from the window enumeration, provenance of the re-sort range, per-arm operation table of the score modes",
             "four clauses: every index used to modify or drop a hit is an enumeration of hits.iter().take(window) with window "
             "bounded by window_size; the re-sorted prefix is that window minus the dropped hits (never a length taken after a "
@@ -144,18 +145,21 @@ CLAIMED = {
             "directory::segment_paths as root.join(name-with-id); every root handed to the path builders derives from the opened "
             "directory", "5/C28"),
     "C22": ("counter discipline over natural loops (increment only under a contains_key miss, no loop exit on the counter), accumulation flow of doc_freq, comparator argument order",
-            "three clauses: the scan cap counts distinct terms and never stops the scan of later segments (doc_freq below the cap is "
+            "four clauses: the scan cap counts distinct terms and never stops the scan of later segments (doc_freq below the cap is "
             "layout-independent); doc_freq is accumulated by addition wherever it is written; options are sorted score-descending then "
-            "text-ascending and cut to size after the sort. Which terms match and their frequencies are runtime facts and NOT decided", "5/C22"),
+            "text-ascending and cut to size after the sort; every length pre-filter against an edit budget counts characters, the unit of "
+            "the edit distance. Which terms match and their frequencies are runtime facts and NOT decided", "5/C22"),
     "C29": ("guard dominance over the kept graph candidates, rejecting-comparison dominance for the dimension, per-arm operation table of the metric, who-may-call of the graph search — on the workspace built WITH the vectors feature",
-            "four clauses (configuration `features`): a graph candidate is kept only if live and passing the request filter and the "
+            "five clauses (configuration `features`): a graph candidate is kept only if live and passing the request filter and the "
             "vector filter, its score multiplied by the clause boost; a clause enters the plan only after vector.len() == field.dim; "
             "Cosine is the dot product and L2 the negated l2_distance of (a, b); the HNSW graph is searched from "
-            "collect_vector_maps only. Similarity values, the blend and nearest-neighbour exactness are NOT decided", "5/C29"),
+            "collect_vector_maps only, with a size that does not depend on deletions. Similarity values, the blend and nearest-neighbour "
+            "exactness are NOT decided", "5/C29"),
     "C30": ("must-order of the page-cutting steps, key-function agreement between sort and filter, operator strictness, provenance of after_key",
             "the page-cutting skeleton of finalize_composite: sort, then filter by `after`, then has_more = (len > size), then cut; sort "
             "and filter build keys with the same function; the filter is strictly `>` and has_more strictly `>`; after_key is the "
-            "last returned bucket's key exactly under has_more. Completeness of the buckets across pages is NOT decided", "5/C30"),
+            "last returned bucket's key exactly under has_more; every ordering the crate defines on the composite key types goes through "
+            "f64::total_cmp (one order). Completeness of the buckets across pages is NOT decided", "5/C30"),
 }
 
 NA = {
